@@ -100,6 +100,7 @@ ONE_TO_ONE = {
     'state': {'fwd': 'Dict κ κ', 'inv': 'Dict κ κ'},
     'dict_base': 'fwd', 'peer': {'attr': 'inv', 'swap': {'fwd': 'inv', 'inv': 'fwd'}},
     'sentinels': ['_MISSING'],
+    'helpers': True, 'clsprep': True,     # round 3b: helper methods on demand, class-level desugaring pre-pass
 }
 _OTO = _cls_methods(ONE_TO_ONE, 'boltons.dictutils', [
     {'py': '__delitem__', 'name': 'delitem', 'params': {'key': 'κ'}, 'result': 'None',
@@ -128,6 +129,7 @@ MANY_TO_MANY = {
     'name': 'ManyToMany', 'lean_name': 'ManyToMany', 'tparams': ['κ'], 'deceq': ['κ'],
     'state': {'data': 'Dict κ (Set κ)', 'inv_data': 'Dict κ (Set κ)'},
     'paths': {'inv.data': 'inv_data'}, 'virtual': ['inv_data'],
+    'helpers': True, 'clsprep': True,     # round 3b
 }
 _M2M = _cls_methods(MANY_TO_MANY, 'boltons.dictutils', [
     {'py': 'add', 'name': 'add', 'params': {'key': 'κ', 'val': 'κ'}, 'result': 'None',
